@@ -87,14 +87,9 @@ impl AesGcm256 {
     { unimplemented!() }
 }
 
-pub open spec fn be32(x: u32) -> Seq<u8> { seq![(x >> 24) as u8, ((x >> 16) & 0xff) as u8, ((x >> 8) & 0xff) as u8, (x & 0xff) as u8] }
 pub open spec fn nonce_of(prefix: Seq<u8>, ctr: u32) -> Seq<u8> { prefix + be32(ctr) }
 
-/// layers::encrypt::build_nonce -- body proved by Kani over all inputs (kani unit `nonce`); assumed here
-#[verifier::external_body]
-pub fn build_nonce(nonce_prefix: [u8; 8], current_ctr: u32) -> (r: Nonce)
-    ensures r@ == nonce_of(nonce_prefix@, current_ctr),
-{ unimplemented!() }
+
 
 // x25519_dalek::{StaticSecret, PublicKey} : opaque 32-byte values (curve arithmetic is not modelled)
 #[verifier::external_body]
